@@ -235,7 +235,7 @@ def _leap_and_tables(model, res):
                     if not ok:
                         res.violation('R4', 'function:%s:thirty-day-months' % q, dm.where(node),
                                       'the set of 30-day months %s is not {4, 6, 9, 11}' % vals, func=q)
-    res.floor('leap tests and month tables', n, 3)
+    res.soft_floor('leap tests and month tables', n, 3)
 
 
 def _guards(model, res, opaque, E):
